@@ -37,8 +37,8 @@ def instantiations(tier, seed):
             bx = mat.boxes_for(kind, nc, rng)
             # path explosion guard (DESIGN.md C11): at most one symbolic box beyond 2x2 in the quick tier, two in the thorough tier
             cap = 1 if tier == "quick" else 2
-            if tier == "quick" and len(A) * nc > 6:
-                cap = 0
+            if len(A) * nc > 6:
+                cap = 0 if tier == "quick" else 1      # measured: 3x3 with two symbolic boxes exceeds 25 min on one core (DESIGN.md 2.9)
             if len(A) * nc > 4:
                 seen = 0
                 for j in range(nc):
